@@ -252,6 +252,7 @@ def install(reg):
 
     def b_noop(ex, st, args, kw, node):
         return None
+    b_noop.any_kwargs = True      # output only: no effect on the modelled state
     L['print'] = b_noop
     L['warn'] = b_noop
     L['warnings.warn'] = b_noop
@@ -420,6 +421,11 @@ def install(reg):
     def np_repeat(ex, st, args, kw, node):
         a = d_(ex, st, args[0])
         reps = d_(ex, st, args[1])
+        # arrays of rows are 1-D arrays of row values here: repeating along
+        # axis 0 repeats rows; any other axis is outside the model
+        if kw.get('axis') not in (None, 0):
+            raise OutsideSubset('np.repeat along axis {!r}'.format(
+                kw.get('axis')), node)
         if isinstance(a, (Sym, int, float)) and isinstance(reps, (Sym, int)):
             k = kind_of(a)
             return st.alloc(A.const_arr(I(reps), a, k), 'rep')
